@@ -15,9 +15,9 @@
     message" is well defined.  [q] is pointer-free by construction: it is a concatenation of
     [wire_of_labels], fixed fields and opaque data.
 
-    Not covered by a theorem: the translation of record boundaries
-    ([uncompress_with_previous_offset] at offsets other than 12), decided on every run by exact
-    comparison with an independent canonical encoder at every record boundary of every packet. *)
+    Record boundaries are translated (C05_boundary_translation): given the offset of the question, of
+    any record, or the end of the packet, [uncompress_with_previous_offset] returns the same output
+    together with the offset at which that question / record / end sits in it. *)
 From DV Require Import Model.Base Model.Parser Model.Header Model.Readers Model.Uncompress
   Spec.NameSpec Spec.PacketSpec Spec.RecordSpec Spec.PlainSpec
   Proofs.Hoare Proofs.UncompressFrame Proofs.QuestionSpec Proofs.UncompressSpec Proofs.PlainWf.
@@ -59,6 +59,24 @@ Theorem C05_reading_unique : forall p qls qt lxa lxn lxr qls' qt' lxa' lxn' lxr'
   qls = qls' /\ qt = qt' /\ lxa = lxa' /\ lxn = lxn' /\ lxr = lxr'.
 Proof. exact reading_fun. Qed.
 Print Assumptions C05_reading_unique.
+
+Theorem C05_boundary_translation : forall p v, bytes_ok p -> parse p = Ok v ->
+  exists qls qt qe e1 e2 lxa lxn lxr,
+    question_of p qls qt CLASS_IN /\ cname_l p 12 qls qe /\
+    records_at p (qe + 4) (map fst lxa) e1 /\ records_at p e1 (map fst lxn) e2 /\
+    records_at p e2 (map fst lxr) (length p) /\
+    Forall (fun rx => rdata_at p (fst rx) (snd rx)) (lxa ++ lxn ++ lxr) /\
+    hdr_ancount p = Ok (N.of_nat (length lxa)) /\ hdr_nscount p = Ok (N.of_nat (length lxn)) /\
+    hdr_arcount p = Ok (N.of_nat (length lxr)) /\
+    let q0 := firstn 12 p ++ plain_question qls qt CLASS_IN in
+    let lx := lxa ++ lxn ++ lxr in
+    let q := q0 ++ concat (map plain_record lx) in
+    uncompress_with_previous_offset p 12 = Ok (q, 12) /\
+    uncompress_with_previous_offset p (length p) = Ok (q, length q) /\
+    forall l1 rx l2, lx = l1 ++ rx :: l2 ->
+      uncompress_with_previous_offset p (rv_off (fst rx)) = Ok (q, length (q0 ++ concat (map plain_record l1))).
+Proof. exact uncompress_at_spec. Qed.
+Print Assumptions C05_boundary_translation.
 
 Example C05_sample :
   uncompress [0;7; 129;128; 0;1; 0;1; 0;0; 0;0; 7;101;120;97;109;112;108;101; 3;99;111;109; 0; 0;1; 0;1;
